@@ -89,12 +89,12 @@ func cmdVerify(args []string) {
 	}
 	sort.Slice(units, func(i, j int) bool { return units[i].Name < units[j].Name })
 	bad := 0
-	for _, u := range units {
-		res := e.VerifyUnit(u)
+	e.VerifyAll(units, func(res *UnitResult) {
+		u := res.Unit
 		if res.Err != "" {
 			fmt.Printf("UNIT %s: ENGINE ERROR: %s\n", u.Name, res.Err)
 			bad++
-			continue
+			return
 		}
 		rs := solveAll(res.Obls, *jobs, *timeout, *all)
 		nd := 0
@@ -105,6 +105,15 @@ func cmdVerify(args []string) {
 			}
 			if ok {
 				nd++
+				nto := 0
+				for _, v := range r.R.AllRuns {
+					if v != "unsat" && v != "sat" {
+						nto++
+					}
+				}
+				if r.R.TimeS > 1.0 || (*all && nto > 0) {
+					fmt.Printf("  slow %-60s %.1fs %s %v\n", r.O.Name, r.R.TimeS, r.R.Solver, r.R.AllRuns)
+				}
 				continue
 			}
 			bad++
@@ -118,7 +127,7 @@ func cmdVerify(args []string) {
 			}
 		}
 		fmt.Printf("UNIT %s: %d/%d ok; trusted: %d\n", u.Name, nd, len(rs), len(res.Trusted))
-	}
+	})
 	fmt.Printf("done in %.1fs, %d problems\n", time.Since(t0).Seconds(), bad)
 	if bad > 0 {
 		os.Exit(1)
